@@ -94,17 +94,17 @@ func main() {
 		fmt.Sscanf(s, "%d", &depth)
 	}
 	type job struct{ cfg bConfig }
-	var jobs []job
+	var jobs, bonus []job
 	for _, tz := range zones {
 		for _, cl := range []bool{false, true} {
 			for _, rt := range retries {
 				if r.Thorough() {
-					d := depth
-					if rt == 1 && (tz == "UTC" || tz == "America/Los_Angeles") && os.Getenv("VERIF_C04_DEPTH") == "" {
-						d = depth + 1 // one level deeper where the zone matters (west of UTC vs. none), default retry
-					}
 					for first := range bEvents { // shard by first event
-						jobs = append(jobs, job{bConfig{TZ: tz, Cluster: cl, Retry: rt, Depth: d, First: first}})
+						jobs = append(jobs, job{bConfig{TZ: tz, Cluster: cl, Retry: rt, Depth: depth, First: first}})
+						if rt == 1 && (tz == "UTC" || tz == "America/Los_Angeles") && os.Getenv("VERIF_C04_DEPTH") == "" {
+							// extension: one level deeper where the zone matters (west of UTC vs. none), default retry
+							bonus = append(bonus, job{bConfig{TZ: tz, Cluster: cl, Retry: rt, Depth: depth + 1, First: first}})
+						}
 					}
 				} else {
 					jobs = append(jobs, job{bConfig{TZ: tz, Cluster: cl, Retry: rt, Depth: depth, First: -1}})
@@ -116,27 +116,53 @@ func main() {
 		k := ((r.Seed % len(jobs)) + len(jobs)) % len(jobs)
 		jobs = append(jobs[k:], jobs[:k]...)
 	}
-	results := make([]*bResult, len(jobs))
-	errs := make([]error, len(jobs))
 	ctx, cancel := context.WithDeadline(context.Background(), r.Deadline.Add(60*time.Second))
 	defer cancel()
 	workerDeadline := r.Deadline.Add(-8 * time.Second)
 	sem := make(chan struct{}, 12)
-	var wg sync.WaitGroup
-	for i := range jobs {
-		wg.Add(1)
-		go func(i int) {
-			defer wg.Done()
-			sem <- struct{}{}
-			defer func() { <-sem }()
-			results[i], errs[i] = runWorker(ctx, jobs[i].cfg, workerDeadline)
-		}(i)
+	runAll := func(js []job) ([]*bResult, []error) {
+		results := make([]*bResult, len(js))
+		errs := make([]error, len(js))
+		var wg sync.WaitGroup
+		for i := range js {
+			wg.Add(1)
+			go func(i int) {
+				defer wg.Done()
+				sem <- struct{}{}
+				defer func() { <-sem }()
+				results[i], errs[i] = runWorker(ctx, js[i].cfg, workerDeadline)
+			}(i)
+		}
+		wg.Wait()
+		return results, errs
 	}
+	var results []*bResult
+	var errs []error
+	started := time.Now()
+	extNote := ""
+	done := make(chan struct{})
+	go func() {
+		defer close(done)
+		results, errs = runAll(jobs)
+		if len(bonus) > 0 {
+			// the depth+1 extension costs ~6x the base exploration: only start it when the base took < 1/8 of the budget
+			if used, total := time.Since(started), r.Deadline.Sub(started); used < total/8 {
+				r2, e2 := runAll(bonus)
+				results, errs = append(results, r2...), append(errs, e2...)
+				extNote = fmt.Sprintf("depth %d for TZ in {UTC, America/Los_Angeles} x cluster {off,on} with retry_attempts=1", depth+1)
+			} else {
+				extNote = fmt.Sprintf("skipped: the depth-%d exploration took %.0f s of the %.0f s budget (machine loaded); the stated bound of this tier is depth %d", depth, used.Seconds(), total.Seconds(), depth)
+			}
+		}
+	}()
 
 	// ---- part a
 	runPartA(r)
 
-	wg.Wait()
+	<-done
+	if extNote != "" {
+		r.Extra["b_depth_extension"] = extNote
+	}
 	for i, e := range errs {
 		if e != nil {
 			ev.Fatal("part b worker %d failed: %v", i, e)
@@ -213,9 +239,6 @@ func main() {
 		}
 	}
 	r.Extra["b_depth"] = depth
-	if r.Thorough() {
-		r.Extra["b_depth_note"] = "depth+1 for TZ in {UTC, America/Los_Angeles} with retry_attempts=1 (both cluster modes)"
-	}
 	r.Extra["b_events"] = bEvents
 	r.Extra["b_configurations"] = perCfg
 	r.Extra["b_event_outcomes"] = outcomes
